@@ -3,6 +3,7 @@ sweep.py — development tool (not a registered check): run many checks in paral
 private copy of /verif and a private scratch worktree of /repo, so that /repo itself is never touched.
 
   sweep.py seeds  [-j N] [--only C03,C07-r4-1,...] [--out FILE]   every stored seeded change: is it still reported?
+  sweep.py benign [-j N] [--only ...]                              every stored behaviour-preserving change: does every check stay quiet?
   sweep.py clean  [-j N] [--seeds 1,2,3] [--props C01,...] [--tier quick]   unchanged tree under several VERIF_SEEDs
   sweep.py patch  <patch.diff> --props C01,C02 [-j N]             one patch against several properties' checks
 
@@ -100,7 +101,7 @@ def worker(k, jobs, results, lock):
 
 def main():
     ap = argparse.ArgumentParser()
-    ap.add_argument("mode", choices=["seeds", "clean", "patch"])
+    ap.add_argument("mode", choices=["seeds", "benign", "clean", "patch"])
     ap.add_argument("patchfile", nargs="?")
     ap.add_argument("-j", type=int, default=6)
     ap.add_argument("--only", default="")
@@ -111,9 +112,9 @@ def main():
     a = ap.parse_args()
     ROOT.mkdir(exist_ok=True)
     jobs = queue.Queue()
-    if a.mode == "seeds":
+    if a.mode in ("seeds", "benign"):
         only = [s for s in a.only.split(",") if s]
-        for d in sorted((VERIF / "seeded").iterdir()):
+        for d in sorted((VERIF / ("seeded" if a.mode == "seeds" else "benign")).iterdir()):
             if not (d / "patch.diff").exists():
                 continue
             if only and not any(d.name == o or d.name.startswith(o + "-") for o in only):
@@ -141,6 +142,9 @@ def main():
     if a.mode == "seeds":
         missed = [r["job"]["id"] for r in results if not r.get("violations")]
         print(f"reported: {len(results) - len(missed)} / {len(results)}; not reported: {missed}")
+    elif a.mode == "benign":
+        alarms = [(r["job"]["id"], r.get("rc"), r.get("violations"), r.get("error", "")[:60]) for r in results if r.get("rc") != 0]
+        print(f"behaviour-preserving changes: {len(results)}; not quiet: {alarms}")
     elif a.mode == "clean":
         bad = [(r["job"], r["rc"], r["violations"]) for r in results if r.get("rc") != 0]
         print(f"clean runs: {len(results)}, non-zero: {bad}")
